@@ -109,21 +109,30 @@ def run(ctx):
     if ctx.only is None:
         if len(auths) < 3 or not feats["at_action_limit"] or not feats["actions_ge_128_bytes"] or not feats["more_than_16_actions"] \
                 or not feats["duplicate_keys_across_actions"]:
-            raise vlib.Infra("vacuity: %s auths=%s" % (feats, sorted(auths)))
+            raise vlib.Infra("vacuous: %s auths=%s" % (feats, sorted(auths)))
     fails = vlib.validate_scenarios(ctx, "WireSize_Trace", "WireSize_Trace.cfg", files, label="tv", signature_fn=sig, max_reports=3)
     for f in files:
         os.remove(f)
-    real, drift = [], []
+    # property failures reject a line; model drift is only marked (KF_HIT-style "model:<clause>" markers) so that the
+    # property clauses are evaluated on EVERY row even when the model no longer describes the code
+    real, drift, harness = [], [], []
     for f in fails:
-        names = diag_names(f)
-        if any(not x.startswith("model:") and not x.startswith("harness") for x in names) or not names:
-            real.append(f)
-        else:
+        if f.get("kf"):
             drift.append(f)
+            continue
+        names = diag_names(f)
+        if names and all(x.startswith("harness") for x in names):
+            harness.append(f)
+        else:
+            real.append(f)
+    ctx.cov["model_drift_markers"] = ctx.cov.pop("known_finding_hits", 0)
+    ctx.cov["model_drift_clauses"] = sorted({f["signature"] for f in drift})
     vlib.report_failures(ctx, real, describe)
+    if harness and not real:
+        raise vlib.Infra("driver generated a shape the rules do not admit: %s" % describe(harness[0])[:400])
     if drift and not real:
-        raise vlib.Infra("WireSize.tla no longer describes the code although the property holds on the recorded numbers "
-                         "(update the model): %s" % describe(drift[0])[:600])
+        raise vlib.Infra("WireSize.tla no longer describes the code although the property holds on every recorded row "
+                         "(update the model): clauses %s, e.g. %s" % (ctx.cov["model_drift_clauses"], drift[0].get("replay")))
     ctx.cov["rule"] = ("seeded shapes: rules' action limit from {1,8,16,32,64,128,255}; a quarter with exactly the limit and one size "
                        "class from {1,2,54,127,128,129,300,16383,16384}; a quarter sweeping the count with sizes {128,1,16384,127}; the "
                        "rest random counts and size mixes; 0-3 declared keys per action over 5 names x 3 chunk sizes (duplicates across "
